@@ -2,6 +2,7 @@
    ParseBLOB_Recursive), field segments and the dictionary entries they stand for. *)
 From Coq Require Import String Ascii List Bool Arith.
 From KV Require Import Lib.Str Lib.ODict Gen.VppSrc Model.Vpp Model.VppWriter Model.Uml Model.UmlBlob Model.UmlWriter.
+From KV Require Export Model.UmlDomain.
 Import ListNotations.
 Open Scope string_scope.
 
@@ -45,18 +46,6 @@ Fixpoint bts_frame (l : list bt) (acc : option frame) : option frame :=
   match l with [] => acc | x :: r => bts_frame r (bt_frame x acc) end.
 Definition sem (l : list bt) : option pv := match bts_frame l (Some frame0) with Some fr => finalize fr | None => None end.
 
-Fixpoint nobrace (s : string) : bool :=
-  match s with EmptyString => true | String c r => negb (Ascii.eqb c "{") && negb (Ascii.eqb c "}") && nobrace r end.
-
-(* the string state after a text *)
-Fixpoint scan (st : qst) (s : string) : qst := match s with EmptyString => st | String c r => scan (qstep st c) r end.
-(* none of the characters [bad] occurs outside a quoted text *)
-Fixpoint free_of (bad : list ascii) (st : qst) (s : string) : bool :=
-  match s with
-  | EmptyString => true
-  | String c r => let st' := qstep st c in (q_in st' || negb (existsb (Ascii.eqb c) bad)) && free_of bad st' r
-  end.
-
 (* a forest is well formed from a string state: texts hold no brace outside quoted text; a block starts and ends outside
    quoted text; returns the state after it *)
 Fixpoint bt_scan (t : bt) (st : option qst) : option qst :=
@@ -80,30 +69,12 @@ Definition bts_ok (l : list bt) : bool := match bts_scan l (Some qst0) with Some
 
 (* ---------------------------------------------------------------- field segments *)
 
-Definition in_chars (cs : list ascii) (s : string) : bool :=
-  (fix go (s : string) : bool := match s with EmptyString => true | String c r => existsb (Ascii.eqb c) cs && go r end) s.
-Definition wsok (s : string) : bool := in_chars [CR; LF; TAB] s.                                   (* line break and indentation *)
-Definition layok (s : string) : bool := in_chars [CR; LF; TAB; SP; "("; ")"; ","]%char s.            (* list punctuation *)
-
 (* the characters mass_replace deletes from str(bytes) text, and the alphabet on which that is all it does *)
 Definition dropped (c : ascii) : bool := existsb (Ascii.eqb c) [CR; LF; TAB; "="; "<"; ">"; ";"; """"; "("; ")"]%char.
 Definition alpha_char (c : ascii) : bool := plain_char c || dropped c.
 Fixpoint alpha (s : string) : bool := match s with EmptyString => true | String c r => alpha_char c && alpha r end.
 Fixpoint keepm (s : string) : string :=
   match s with EmptyString => "" | String c r => if dropped c then keepm r else String c (keepm r) end.
-
-(* a value as written: "text" or text *)
-Definition unq (v : string) : string :=
-  match v with
-  | String c r => if Ascii.eqb c DQ then substring 0 (String.length r - 1) r else v
-  | EmptyString => ""
-  end.
-
-Inductive seg :=
-| SField (ws k v : string)
-| SRefs (ws k o sep c : string) (ids : list string)
-| SChildren (ws k o sep c : string) (n : nat)
-| SRaw (body : string).
 
 Fixpoint rep (s : string) (n : nat) : string := match n with O => "" | S m => s ++ rep s m end.
 
@@ -125,46 +96,9 @@ Definition seg_fields (s : seg) (acc : list (string * pv)) : list (string * pv) 
   | SRaw body => vstep acc (repr_body SQ body)          (* free text: whatever the reader makes of that piece *)
   end.
 
-Definition keyok (k : string) : bool := plain k && no_char SP k && no_char "," k && negb (String.eqb k "").
-(* a plain text without leading / trailing blank and without ',' *)
-Definition textok (x : string) : bool := plain x && no_char "," x && String.eqb (py_strip x) x.
-(* a value: a plain text without leading / trailing blank; it may hold ',' (defaults such as  nullptr, nullptr ) *)
-Definition vtextok (x : string) : bool := plain x && String.eqb (py_strip x) x.
-Definition valok (v : string) : bool :=
-  (vtextok v && negb (prefixb dq v)) || (prefixb dq v && String.eqb v (dq ++ unq v ++ dq) && vtextok (unq v)).
-Definition idok (i : string) : bool := textok i && negb (String.eqb i "").
-
-(* a free-text piece (e.g. documentation="<html ...>"): as str(bytes) shows it, no ';' and no brace outside quoted text, and
-   the quoted texts are closed *)
-Definition raw_ok (body : string) : bool :=
-  free_of [";"; "{"; "}"]%char qst0 (repr_body SQ body) && negb (q_in (scan qst0 (repr_body SQ body))).
-
-Definition seg_ok (s : seg) : bool :=
-  match s with
-  | SField ws k v => wsok ws && keyok k && valok v
-  | SRefs ws k o sep c ids => wsok ws && keyok k && layok o && layok sep && layok c && forallb idok ids
-  | SChildren ws k o sep c _ => wsok ws && keyok k && layok o && layok sep && layok c
-  | SRaw body => raw_ok body
-  end.
-
 Definition segs_text (l : list seg) : string := String.concat "" (map seg_text l).
 Definition segs_fields (l : list seg) : list (string * pv) := fold_left (fun acc s => seg_fields s acc) l [].
 
-(* element headers  id:"name":Type  *)
-Definition name_text (nm : option string) : string := match nm with Some s => s | None => "NULL" end.
-Definition head_text (id : string) (nm : option string) (ty : string) : string := id ++ ":" ++ qname nm ++ ":" ++ ty ++ " ".
-Definition headok (id : string) (nm : option string) (ty : string) : bool :=
-  textok id && no_char ":" id && negb (String.eqb id "")
-  && match nm with Some s => textok s && no_char ":" s | None => true end
-  && textok ty && no_char ":" ty && negb (String.eqb ty "").
-
-(* the TOP-LEVEL header of a row's blob when the element NAME may hold colons: the reader cuts  b'id:name:type '  at EVERY colon
-   and takes the first three pieces, so the name entry is the first piece of the name and the type entry its second piece (or the
-   type when the name has no colon).  Nothing else of the parse depends on the header. *)
-Definition headok_top (id : string) (nm : option string) (ty : string) : bool :=
-  textok id && no_char ":" id && negb (String.eqb id "")
-  && match nm with Some s => textok s | None => true end
-  && textok ty && no_char ":" ty && negb (String.eqb ty "").
 Definition top_head (id : string) (nm : option string) (ty : string) : list (string * pv) :=
   let parts := (split_on ":" (name_text nm) ++ [(ty ++ " '")%string])%list in
   [("id", PStr (String "b" (String SQ id))); ("name", PStr (py_strip (nth 0 parts ""))); ("type", PStr (py_strip (nth 1 parts "")))].
